@@ -3,9 +3,18 @@ open GlueVerif.C06
 #print axioms inv_init
 #print axioms step_inv
 #print axioms reachable_inv
+#print axioms deliver_inv
+#print axioms close_restores_inv
+#print axioms depth_of_history
+#print axioms quiescent_inv
 #print axioms spec_of_inv
 #print axioms reachable_spec
 #print axioms reachable_ordered
 #print axioms restore_roundtrip
+#print axioms unguarded_group_in_block_duplicates
+#print axioms immediate_step_inv
+#print axioms immediate_reachable_inv
+#print axioms immediate_agrees
+#print axioms immediate_inv_quiescent
 #print axioms old_removed_dataset_keeps_subsets
 #print axioms old_reappend_duplicates
